@@ -94,7 +94,7 @@ def load(I, data, json_sourced=False):
     return ("error", out)
 
 
-def rule_load(progs, tier, name="YAMLLOAD", n_quick=160, n_thorough=1500):
+def rule_load(progs, tier, name="YAMLLOAD", n_quick=160, n_thorough=600):
     out = []
     for cfg, P in progs.items():
         res = RuleResult(name, cfg)
@@ -206,7 +206,7 @@ EDGE_INT_TREES = [
 ]
 
 
-def rule_load_json(progs, tier, name="YAMLLOAD(json)", n_quick=50, n_thorough=600):
+def rule_load_json(progs, tier, name="YAMLLOAD(json)", n_quick=50, n_thorough=300):
     """C26, identity clause: the same tree supplied as JSON text (compact and indented; non-ASCII raw
     and \\u-escaped) goes through the route yq uses for JSON input (`YamlIndex::build` +
     `mark_json_sourced`) and must load as the tree, as its block / flow YAML renderings must
@@ -266,7 +266,7 @@ def rule_load_json(progs, tier, name="YAMLLOAD(json)", n_quick=50, n_thorough=60
     return out
 
 
-def rule_route_json(progs, tier, name="YAMLROUTE(json)", n_quick=40, n_thorough=500):
+def rule_route_json(progs, tier, name="YAMLROUTE(json)", n_quick=40, n_thorough=250):
     """C27, JSON-output clause on YAML input, at the library's two printing entry points: for the
     cursors a navigation program yields (each document, its fields / elements, one level below),
     `DocumentCursor::stream_json` (streamed straight from the YAML cursor) and
